@@ -67,6 +67,26 @@ binding kind SrcExt uses for `in` / `index`), non-string pieces `{x}` of an f-st
 MIDI helpers (group SrcMidiUtil): `sum(xss, [])` on a list of lists (the concatenation, `List.flatten`).  The group SrcSpell needed no
 new construct: music21 constructors / attribute stores are `spec.methods` / `spec.store_templates` bindings on marker types, `str(int)`
 is a `spec.builtins` binding, `mode in SCALES` a `spec.binops` binding.
+Re-voicing (group SrcPvl; all opt-in through spec bindings or entry keys): `x.a.b = v` on a copy that holds an `a` object of its
+own (`spec.owned_attrs`, see `FunTr.nested_store`), `==` / `!=` on a pair of types the spec binds (`spec.binops[(A, 'Eq', B)]`),
+one-sided slices of any list (`l[1:]`), local functions that read parameters of the enclosing function (key `closure` of a
+`nested` entry: the variables become leading parameters of the lifted definition), comprehensions with a pair target over a list
+of pairs (`for i, x in enumerate(row)`, `enumerate` bound in `spec.builtins`), lists indexed by an int-like type
+(`spec.int_types`: numpy integer scalars), `np.<f>(…)` bound per argument types (`spec.builtins['np.<f>']`), bound methods
+called with literal keyword arguments (`spec.kw_methods`: `np.diff(x, axis=1)`).
+Importer (group SrcImport; every item opt-in through a spec binding / entry key, or a form that raised `Untranslatable` before):
+float literals (exact value, type `Float`) compared exactly with ints / Fractions; `-x` on a Fraction; `a <= b < c` on operands that
+cannot raise; a conditional expression whose branch can raise (`spec.raising_ifexp`: only the branch taken is evaluated);
+`for i, x in enumerate(v)` with the index read and `for i, (a, b) in …` (a bound `enumerate` / `zip` in `spec.builtins`, hidden names
+for the nested pairs); a plain (non-recursive, closure-free) local `def` (entry key `nested` with `plain=True`); `xs.pop()`;
+`xs[i].attr = e` / `op=` on a fresh list (`check_item_store`: no name an item was appended under is read between the store and its
+next binding); `x.attr = e` through the loop variable running over a parameter declared `owned_items` (`check_elem_store`; call sites:
+`check_owned`); on declared dict types `x = d.pop(k[, None])` (template `pop`; the popped value is a fresh object — assumption printed),
+a `d.pop(k)` argument hoisted in front of its call when the earlier arguments are atoms, `d[k] op= v` (template `get`), `{k: v}` with a
+computed key, methods / `in` / `len` on a `{}` whose dict type is fixed by that use, iteration over a bound iterable in a comprehension,
+a comprehension as the iterable of a loop that changes the dicts it reads; `f(…)(**d)`; owned arguments re-bound by the same statement
+(form (d) of `check_owned_call`); items of a list that was empty when created typed by the attribute / method read from them;
+`[f(a, b, …) for a, b, … in rows]`; a list display of mixed types read as a tuple (entry key `list_rows`).
 Where the forks of the groups met (merges of SrcOrn, SrcDurOps, SrcExt, then of SrcConv, SrcBetween / SrcBetweenProject):
   * `/`: a `spec.binops` binding first (SrcDurOps: `Py.ratDiv`, SrcBetween: `PyB.ratDiv`), else the built-in reading (SrcOrn:
     `Py.fracDiv`, `x / 2` pure); bindings are looked up with the operand types as inferred, then with their type variables resolved;
@@ -91,6 +111,25 @@ index read, `while`, closures; comparison chains, `all` / `any`, `isinstance` as
 records; `==` through `spec.eq` as the last case of `e_Compare`, `spec.fstr`, tuple targets of list comprehensions; `sum(xss, [])`),
 so no reading of an older group changes; a comparison chain of SrcMask goes link by link through `e_Compare` and so may use SrcEq's
 `spec.eq` case, `all(…)` / `any(…)` go through the list comprehension and so admit SrcEq's tuple targets.
+Fourth merge (SrcPvl, SrcImport onto the third):
+  * tuple targets of a list comprehension with one generator: SrcEq's handler (any arity, filters); SrcPvl's pair target and SrcImport's
+    row target were the same reading with another bound name, kept through `spec.tuple_binder` (`kv`, SrcPvl `p`, SrcImport `row`) so
+    that every generated file keeps its text.  SrcPvl's own pair handler remains for comprehensions with several generators; a plain
+    target that shadows a component of an enclosing tuple target is refused (SrcEq's rule; SrcPvl's fork un-shadowed it, nothing used that);
+  * local functions (`FunTr.local_function`): the `nested` entry takes `captures` / `mutates` (SrcEuclid: read / appended-to variables,
+    called as a statement), `closure` (SrcPvl: parameters of the enclosing function it reads, called inside expressions) or `plain`
+    (SrcImport: closed, not recursive, no depth bound); `closure` excludes the other two.  In `spec.funs` SrcEuclid's pair stays under
+    the key `closure`, SrcPvl's list is under `closure_params`;
+  * a conditional expression with a branch that can raise: one handler (SrcMask's `join_branches` covers SrcImport's int / Fraction
+    case); `spec.raising_ifexp` no longer admits anything, it keeps SrcImport's text (no outer parentheses);
+  * comparison chains: SrcMask's handler alone (SrcImport's, for two order comparisons, gave the same text);
+  * `for i, x in enumerate(v)` with the index read / `for i, (a, b) in enumerate(…)`: SrcEuclid's `Py.enumerate` reading unless the
+    group binds `enumerate` in `spec.builtins` (SrcImport), in which case the loop runs over that binding (SrcImport's nested targets);
+  * slices: SrcEuclid's two-sided `l[a:b]` of int lists first, then one-sided slices of any list (SrcPvl); `e_Call`: SrcMask's `**kwargs`
+    record and `x.__class__(…)` first, then SrcImport's `f(…)(**d)`; statements: SrcPvl's `x.a.b = v` and SrcImport's `xs[i].attr = v`
+    are disjoint targets, both kept;
+  * the int -> Fraction promotions in front of a loop are emitted in sorted order: the forks iterated over a `set` of names, whose order
+    changes with the hash seed of the run (first visible in SrcImport, the first function that promotes two variables at once).
 Typing is by a simple flow-sensitive inference from the parameter types given in the spec; an
 `if` duplicates the rest of the block into both branches, so every path is typed on its own.
 Python evaluation order is kept: every sub-expression that can raise is bound (`let t ← …`)
@@ -206,6 +245,19 @@ def paren(t):
     return t if (' ' not in t or t.startswith('(')) else f'({t})'
 
 
+def strip_outer(ty):
+    """`(A × (B × C))` -> `A × (B × C)` when the first parenthesis closes at the end"""
+    if not (ty.startswith('(') and ty.endswith(')')):
+        return ty
+    depth = 0
+    for i, ch in enumerate(ty):
+        depth += ch == '('
+        depth -= ch == ')'
+        if depth == 0 and i < len(ty) - 1:
+            return ty
+    return ty[1:-1]
+
+
 def tuple_proj(n, i):
     """projection i of an n-tuple nested to the right"""
     if n == 1:
@@ -267,6 +319,15 @@ class Spec:
         self.dict_key_iters = {}          # dict type -> (template over {0} for the list of its keys, key type): `{k: f(k) for k in d}`
         # --- binding kind added for the group SrcEq (empty by default)
         self.fstr = {}                    # type -> template over {0}: `str(x)` of a non-string piece `{x}` of an f-string (no conversion, no format spec)
+        # --- binding kinds added for the group SrcPvl (empty by default)
+        self.tuple_binder = 'kv'          # prefix of the variable a tuple target of a comprehension is bound to (SrcPvl's fork wrote 'p', SrcImport's 'row')
+        self.owned_attrs = set()          # (type, attr): `x.copy()` on a value of `type` gives the copy an `attr` object of its own
+        self.int_types = set()            # types that index a list as an int does (numpy integer scalars)
+        self.kw_methods = {}              # (type, method, ((keyword, literal term), …)) -> (template over {0}=object,{1}.. positional, result
+                                          #   type): a bound method called with these keyword arguments, each a literal (`np.diff(x, axis=1)`)
+        # --- binding kinds added for the group SrcImport
+        self.raising_ifexp = False        # SrcImport's fork admitted `a if c else b` with a branch that can raise only under this flag; since
+                                          #   the merge with SrcMask (which admits it always) it only selects that fork's text (no outer parentheses)
 
 
 class FunTr:
@@ -326,6 +387,11 @@ class FunTr:
         if isinstance(v, str):
             import json
             return json.dumps(v, ensure_ascii=True), 'Str'
+        if isinstance(v, float) and v == v and v not in (float('inf'), float('-inf')):
+            # SrcImport: a float literal is carried as the exact rational value of the double (type `Float`, never converted silently)
+            from fractions import Fraction
+            q = Fraction(v)
+            return f'(({q.numerator} : Rat) / ({q.denominator} : Rat))', 'Float'
         raise Untranslatable(f'constant {v!r}')
 
     def e_Name(self, e, env, B):
@@ -353,6 +419,11 @@ class FunTr:
             self.tyvars[m] = None
             return '[]', f'List {m}'
         parts = [self.expr(x, env, B) for x in e.elts]
+        if any(p[1] != parts[0][1] for p in parts) and getattr(self, 'list_rows', False):
+            # SrcImport (entry key `list_rows`): a list display of fixed length with items of several types is a row, read as a tuple
+            t = '(' + ', '.join(p[0] for p in parts) + ')'
+            self.last_tuple = (t, parts)
+            return t, ' × '.join(paren(lean_ty(p[1])) if ' × ' in lean_ty(p[1]) else lean_ty(p[1]) for p in parts)
         if any(p[1] != parts[0][1] for p in parts):
             # SrcMask: elements of different declared classes that the spec coerces to one of the element types (`[self, other]`)
             for cand in [p[1] for p in parts]:
@@ -377,6 +448,15 @@ class FunTr:
           * `{}` when the spec declares dict types (SrcConv, `spec.dict_types`): which declared type it is is fixed by the first
             store / by what it is passed as (`as_dict_type`);
           * `{}` otherwise (SrcExt): the entry type is fixed by the first store, type `Assoc ⟦T⟧` (operations of MV.Model.PyList)"""
+        if len(e.keys) == 1 and e.keys[0] is not None and not isinstance(e.keys[0], ast.Constant) and self.spec.dict_types:
+            # SrcImport: `{k: v}` with a computed key, of the dict type the spec declares for these key / value types
+            k_, kty_ = self.expr(e.keys[0], env, B)
+            v_, vty_ = self.expr(e.values[0], env, B)
+            cands = [d for d, D in self.spec.dict_types.items() if lean_ty(D['key']) == lean_ty(kty_)
+                     and lean_ty(D['val']).replace('Melody', 'List Note') == lean_ty(vty_).replace('Melody', 'List Note')]
+            if len(cands) != 1:
+                raise Untranslatable(f'dict literal {{{kty_}: {vty_}}}')
+            return f'[({k_}, {v_})]', cands[0]
         if e.keys:
             if any(not (isinstance(k_, ast.Constant) and isinstance(k_.value, str)) for k_ in e.keys) \
                     or len({k_.value for k_ in e.keys}) != len(e.keys):
@@ -450,6 +530,8 @@ class FunTr:
             t, ty = self.truth(t, ty)
         if isinstance(e.op, ast.USub) and ty == 'Int':
             return f'(-{t})', 'Int'
+        if isinstance(e.op, ast.USub) and ty == 'Rat':
+            return f'(-{t})', 'Rat'           # SrcImport: `-x` on a Fraction
         if isinstance(e.op, ast.Not) and ty == 'Bool':
             if t in ('true', 'false'):
                 return ('false' if t == 'true' else 'true'), 'Bool'
@@ -528,12 +610,14 @@ class FunTr:
         if (Ba or Bb) and cty == 'Bool' and all(isinstance(m_, tuple) and m_[0] == 'pure' for _, m_ in Ba + Bb):
             a, b, Ba, Bb = inline(Ba, a), inline(Bb, b), [], []
         if (Ba or Bb) and cty == 'Bool' and B is not None and c not in ('true', 'false'):
-            # SrcMask: a branch that can raise is evaluated only when it is taken (`f(x) if test else g(x)`)
+            # SrcMask, SrcImport: a branch that can raise is evaluated only when it is taken (`f(x) if test else g(x)`,
+            # `xs[0].start if len(xs) > 0 else t`).  One reading; `spec.raising_ifexp` keeps the text SrcImport's fork wrote
             a, b, aty = self.join_branches(a, aty, b, bty)
 
             def seq(Bx, t):
                 return ' '.join([(f'let {n_} := {m_[1]};' if isinstance(m_, tuple) else f'let {n_} ← {m_};') for n_, m_ in Bx] + [f'pure {t}'])
-            return self.bind(B, f'(if {c} then (do {seq(Ba, a)}) else (do {seq(Bb, b)}))', 'Res ' + paren(aty))
+            t = f'if {c} then (do {seq(Ba, a)}) else (do {seq(Bb, b)})'
+            return self.bind(B, t if self.spec.raising_ifexp else f'({t})', 'Res ' + paren(aty))
         if Ba or Bb or cty != 'Bool':
             raise Untranslatable('conditional expression')
         if c == 'true':          # decided by the declared types (e.g. `x if x is not None else d` on a non-optional x)
@@ -649,7 +733,8 @@ class FunTr:
     def e_Compare(self, e, env, B):
         if len(e.ops) != 1:
             # `a <= b < c` = `a <= b and b < c` with `b` evaluated once; admitted when every operand is pure (so neither the
-            # single evaluation nor the short-circuit can be observed)
+            # single evaluation nor the short-circuit can be observed).  SrcMask's handler; SrcImport's fork had the same reading
+            # for chains of two order comparisons and gives the same text through this one
             terms, left = [], e.left
             for op_, right_ in zip(e.ops, e.comparators):
                 one = ast.Compare(left=left, ops=[op_], comparators=[right_])
@@ -691,6 +776,8 @@ class FunTr:
             return ('false' if op == 'Eq' else 'true'), 'Bool'
         b, bty = self.expr(right, env, B)
         if op in ('In', 'NotIn'):
+            if bty in getattr(self, 'dictvars', ()):
+                bty = self.resolve(bty)         # SrcImport: a `{}` whose dict type is known by now
             if (aty, 'In', bty) in self.spec.binops:
                 tmpl, rty = self.spec.binops[(aty, 'In', bty)]
                 r, rty = self.bind(B, tmpl.format(a, b), rty)
@@ -709,6 +796,13 @@ class FunTr:
             raise Untranslatable(f'{aty} in {bty}')
         if op not in self.CMP:
             raise Untranslatable(f'comparison {op}')
+        if op in ('Eq', 'NotEq') and (aty, 'Eq', bty) in self.spec.binops:
+            # `==` on a pair of types the spec binds (SrcPvl: a direction that is None or a string against a string literal)
+            tmpl, rty = self.spec.binops[(aty, 'Eq', bty)]
+            r, rty = self.bind(B, tmpl.format(a, b), rty)
+            if rty != 'Bool':
+                raise Untranslatable(f'{aty} == {bty}: bound to a {rty}')
+            return (r if op == 'Eq' else f'(!{r})'), 'Bool'
         if aty == 'Int' and bty == 'Int':
             la, lb = INT_LIT.match(a), INT_LIT.match(b)
             if la and lb and self.fold_literals:      # both sides are literals (e.g. the length of a list display)
@@ -719,6 +813,11 @@ class FunTr:
         if 'Rat' in (aty, bty) and {aty, bty} <= {'Rat', 'Int'}:
             a = a if aty == 'Rat' else f'(({a} : Int) : Rat)'
             b = b if bty == 'Rat' else f'(({b} : Int) : Rat)'
+            return f'(decide ({a} {self.CMP[op]} {b}))', 'Bool'
+        if 'Float' in (aty, bty) and {aty, bty} <= {'Rat', 'Int', 'Float'} and aty != bty:
+            # SrcImport: Python compares an int / a Fraction with a float exactly (`Fraction._richcmp` goes through `from_float`)
+            a = f'(({a} : Int) : Rat)' if aty == 'Int' else a
+            b = f'(({b} : Int) : Rat)' if bty == 'Int' else b
             return f'(decide ({a} {self.CMP[op]} {b}))', 'Bool'
         if aty == 'Np' and bty == 'Int':
             v = self.fresh('v')
@@ -770,7 +869,8 @@ class FunTr:
                 if loty != 'Int' or hity != 'Int':
                     raise Untranslatable('slice bound')
                 return f'(Py.slice {v} {lo} {hi})', 'List Int'
-            if s.step is not None or vty != 'List Int' or (s.lower is None) == (s.upper is None):
+            if s.step is not None or not (vty == 'List Int' or (vty.startswith('List ') and '⟦' not in vty)) \
+                    or (s.lower is None) == (s.upper is None):
                 raise Untranslatable('slice form')
             if s.lower is not None:
                 i, ity = self.expr(s.lower, env, B)
@@ -780,7 +880,7 @@ class FunTr:
                 fn = 'sliceTo'
             if ity != 'Int':
                 raise Untranslatable('slice bound')
-            return f'(Py.{fn} {v} {i})', 'List Int'
+            return f'(Py.{fn} {v} {i})', vty          # `List Int`; SrcPvl: one-sided slices of any list (`self.chords[1:]`)
         if vty.startswith(ASSOC):                      # `d[k]`: KeyError when absent (SrcExt)
             kv = split_prod(elem_ty(self.resolve(vty)))
             k_, kty_ = self.expr(e.slice, env, B)
@@ -797,7 +897,7 @@ class FunTr:
             tmpl, rty = self.spec.tuple_fields[(vty, e.slice.value)]
             return tmpl.format(v), rty
         i, ity = self.expr(e.slice, env, B)
-        if is_list(vty) and ity == 'Int':
+        if is_list(vty) and (ity == 'Int' or ity in self.spec.int_types):
             et = elem_ty(vty)
             return self.bind(B, f'pyIndex {v} {i}', 'Res ' + paren(et))
         if vty == 'Np' and ity == 'NpBool':
@@ -806,6 +906,15 @@ class FunTr:
 
     def e_Attribute(self, e, env, B):
         v, vty = self.expr(e.value, env, B)
+        if '⟦' in vty:
+            vty = self.resolve(vty)         # SrcImport: an item of a list that was empty when it was created (`xs = []` … `xs[-1].attr`)
+            if vty in self.tyvars and self.tyvars[vty] is None and vty not in getattr(self, 'dictvars', ()):
+                # nothing was appended yet on this path: the only record type with this attribute (a wrong choice cannot
+                # survive: the first `append` unifies the item type again)
+                owners = sorted({t_ for (t_, a_) in list(self.spec.attrs) + list(self.spec.funs_by_attr) if a_ == e.attr})
+                if len(owners) == 1:
+                    self.tyvars[vty] = owners[0]
+                    vty = owners[0]
         if vty.startswith('Option ') and not isinstance(e.value, ast.Name):
             # an attribute of a value that may be None: `None.attr` raises AttributeError
             inner = vty[7:].strip()
@@ -831,6 +940,17 @@ class FunTr:
               next read (SrcConv: `new_chord, last_pitch = chord.to_absolute_note(last_pitch=last_pitch, …)`): `check_owned_call`."""
         f = self.spec.funs[pyname]
         names = [p[0] for p in f['params']]
+        for p_, attr_ in f.get('item_stores', ()):
+            # SrcImport: the callee stores into attribute `attr_` of the items of the list it is given: the caller must not read that
+            # attribute anywhere (then it cannot tell the difference); what its own callers see is printed as an assumption
+            for st_ in getattr(self, 'fun_body', []):
+                for nd in ast.walk(st_):
+                    if isinstance(nd, ast.Attribute) and nd.attr == attr_:
+                        raise Untranslatable(f'{pyname} stores into `.{attr_}` of the items of `{p_}`; the caller reads `.{attr_}` at line {nd.lineno}')
+            note = (f'`{pyname}` stores into `.{attr_}` of the items it is given (`{p_}`): this function never reads `.{attr_}`; the items '
+                    f'are distinct objects and callers do not rely on their `.{attr_}` afterwards')
+            if note not in self.assumed:
+                self.assumed.append(note)
         if id(call) in getattr(self, '_owned_ok', ()):
             return            # form (c), approved by `check_owned_call` at the statement
         for p in f.get('owned', ()):
@@ -921,6 +1041,13 @@ class FunTr:
                     continue                       # default value: a new object
                 if not isinstance(a, ast.Name):
                     raise Untranslatable(f'argument {pn} (mutated by the callee) is not a local name at line {stmt.lineno}')
+                tnames = [x.id for t_ in getattr(stmt, 'targets', []) for x in ast.walk(t_) if isinstance(x, ast.Name) and isinstance(x.ctx, ast.Store)]
+                if ident(a.id) in self.fresh_vars(env) and (a.id in tnames or "'" in a.id) \
+                        and sum(1 for nd in ast.walk(stmt) if isinstance(nd, ast.Name) and nd.id == a.id and isinstance(nd.ctx, ast.Load)) == 1:
+                    # SrcImport, form (d): `…, x = f(…, x, …)` with `x` an object no other name refers to (fresh at the call, e.g. just
+                    # popped from a dict) that this very statement re-binds, or a hidden temporary that is never read again: after
+                    # the statement nothing can reach the object the callee changed except through the callee's result
+                    continue
                 # no second reference to the object: the name is never used as a bare value (assigned to another name,
                 # stored, returned, passed on) anywhere in the function, only read through (`x.get(k)`, `x[k]`) or given to the callee
                 for node in [n_ for st_ in getattr(self, 'fun_body', []) for n_ in ast.walk(st_)]:
@@ -1047,10 +1174,16 @@ class FunTr:
             # SrcMask: `self.__class__(…)` builds an instance of the declared class of `self`
             self.assumed.append(f'line {e.lineno}: `{fn.value.id}.__class__` is the declared class {env[fn.value.id]} (not a subclass)')
             return self.ctor(self.spec.class_ctor[env[fn.value.id]], e, env, B)
-        if isinstance(fn, ast.Name) and fn.id in env and (env[fn.id] in self.spec.call_objects or any(
-                k_[0] == env[fn.id] for k_ in list(self.spec.callables) + list(self.spec.kwcalls))):
+        pre = None
+        if isinstance(fn, ast.Call) and self.spec.call_objects and not e.args and len(e.keywords) == 1 and e.keywords[0].arg is None:
+            # SrcImport: `f(…)(**d)`: the callee is evaluated first; it must be an object whose `__call__` the spec binds
+            pre = self.expr(fn, env, B)
+            if pre[1] not in self.spec.call_objects:
+                raise Untranslatable('call form')
+        if pre is not None or (isinstance(fn, ast.Name) and fn.id in env and (env[fn.id] in self.spec.call_objects or any(
+                k_[0] == env[fn.id] for k_ in list(self.spec.callables) + list(self.spec.kwcalls)))):
             # `obj(args, **d, kw=…)` on an object whose `__call__` the spec binds
-            v, vty = self.expr(fn, env, B)
+            v, vty = pre if pre is not None else self.expr(fn, env, B)
             args = [self.expr(a, env, B) for a in e.args]
             stars = [kw for kw in e.keywords if kw.arg is None]
             if len(stars) > 1:
@@ -1083,7 +1216,7 @@ class FunTr:
             if n in self.spec.builtins and n not in env and not e.keywords:
                 # a built-in the group's spec binds per argument types (SrcBetween: `int`, `dict`); it wins over the readings below
                 args = [self.expr(a, env, B) for a in e.args]
-                sig = tuple(a[1] for a in args)
+                sig = tuple(self.resolve(a[1]) if a[1] in getattr(self, 'dictvars', ()) else a[1] for a in args)
                 if sig not in self.spec.builtins[n]:
                     raise Untranslatable(f'{n}{sig} at line {e.lineno}')
                 tmpl, rty = self.spec.builtins[n][sig]
@@ -1239,7 +1372,10 @@ class FunTr:
                 return self.ctor(n, e, env, B)
             if n in self.spec.funs:
                 self.check_owned(n, e, list(e.args), env)
-                args = [self.expr(a, env, B) for a in e.args]
+                clo = list(self.spec.funs[n].get('closure_params', ()))      # a lifted local function: the variables it closes over first
+                if any(env.get(c_) != t_ for c_, t_ in clo):
+                    raise Untranslatable(f'call of {n}: closure variables {[c_ for c_, _ in clo]}')
+                args = [(ident(c_), t_) for c_, t_ in clo] + [self.expr(a, env, B) for a in e.args]
                 if e.keywords:
                     pn = [p[0] for p in self.spec.funs[n]['params']][len(args):]
                     kw = {k.arg: k.value for k in e.keywords}
@@ -1254,12 +1390,28 @@ class FunTr:
                 return self.bind(B, tmpl.format(*[a[0] for a in args]), rty)
             raise Untranslatable(f'call of {n}')
         if isinstance(fn, ast.Attribute):
+            if isinstance(fn.value, ast.Name) and fn.value.id == 'np' and 'np' not in env and ('np.' + fn.attr) in self.spec.builtins \
+                    and not e.keywords:
+                # a numpy function the group's spec binds per argument types (SrcPvl: `np.asarray` of a list of rows)
+                args = [self.expr(a, env, B) for a in e.args]
+                sig = tuple(a[1] for a in args)
+                if sig not in self.spec.builtins['np.' + fn.attr]:
+                    raise Untranslatable(f'np.{fn.attr}{sig} at line {e.lineno}')
+                tmpl, rty = self.spec.builtins['np.' + fn.attr][sig]
+                return self.bind(B, tmpl.format(*[a[0] for a in args]), rty)
             if isinstance(fn.value, ast.Name) and fn.value.id == 'np' and fn.attr in ('asarray', 'array') and len(e.args) == 1:
                 t, ty = self.expr(e.args[0], env, B)
                 if ty not in LIST_TYPES:
                     raise Untranslatable('np.asarray of non-int-list')
                 return t, 'Np'
             v, vty = self.expr(fn.value, env, B)
+            if '⟦' in vty and not vty.startswith('List ') and vty not in getattr(self, 'dictvars', ()):
+                vty = self.resolve(vty)          # SrcImport: an item of a list that was empty when it was created, as in `e_Attribute`
+                if vty in self.tyvars and self.tyvars[vty] is None:
+                    owners = sorted({t_ for (t_, a_) in list(self.spec.methods) + list(self.spec.funs_by_attr) if a_ == fn.attr})
+                    if len(owners) == 1:
+                        self.tyvars[vty] = owners[0]
+                        vty = owners[0]
             if vty.startswith('Option ') and self.spec.option_unwrap and (vty, fn.attr) not in self.spec.methods \
                     and (vty, fn.attr) not in self.spec.funs_by_attr:
                 v, vty = self.bind(B, self.spec.option_unwrap.format(v), 'Res ' + vty[7:].strip())   # None.attr raises
@@ -1294,7 +1446,22 @@ class FunTr:
                     raise Untranslatable(f'keys of {vty}')
                 return f'({v}.map (fun p => p.1))', f'List {paren(kv[0])}'
             args = [self.expr(a, env, B) for a in e.args]
+            if vty in getattr(self, 'dictvars', ()) and self.tyvars.get(vty) is None and args:
+                # SrcImport: a method of a `{}` nothing was stored into yet (`d.get(k, 0)`): the declared dict type that binds
+                # this method for these key / default types, if there is exactly one
+                cands = [d for d, D in self.spec.dict_types.items() if (d, fn.attr) in self.spec.methods
+                         and lean_ty(D['key']) == lean_ty(args[0][1]) and (len(args) < 2 or lean_ty(D['val']) == lean_ty(args[1][1]))]
+                if len(cands) == 1:
+                    self.tyvars[vty] = cands[0]
+            vty = self.resolve(vty) if vty in getattr(self, 'dictvars', ()) else vty
             key = (vty, fn.attr)
+            if e.keywords and any(k_[:2] == key for k_ in self.spec.kw_methods) and all(k_.arg for k_ in e.keywords):
+                # a bound method called with keyword arguments that are literals (SrcPvl: `np.diff(pitches, axis=1)`)
+                kws = tuple((k_.arg, self.expr(k_.value, env, None)[0]) for k_ in e.keywords)
+                if (vty, fn.attr, kws) not in self.spec.kw_methods:
+                    raise Untranslatable(f'method {vty}.{fn.attr} with keywords {kws} at line {e.lineno}')
+                tmpl, rty = self.spec.kw_methods[(vty, fn.attr, kws)]
+                return self.bind(B, tmpl.format(v, *[a[0] for a in args]), rty)
             if key in self.spec.funs_by_attr and e.keywords:
                 f = self.spec.funs[self.spec.funs_by_attr[key]]
                 pn = [p[0] for p in f['params']][1 + len(args):]
@@ -1355,12 +1522,14 @@ class FunTr:
             if isinstance(g.target, ast.Tuple) and not g.is_async and len(gens) == 1 and len(g.target.elts) >= 2 \
                     and all(isinstance(x_, ast.Name) for x_ in g.target.elts) \
                     and len({x_.id for x_ in g.target.elts}) == len(g.target.elts):
-                # SrcEq: `[e for a, b in pairs]` over a list of tuples: one bound variable, the names are its components
+                # SrcEq: `[e for a, b in pairs]` over a list of tuples: one bound variable, the names are its components (SrcPvl's
+                # `for idxc, new_val in enumerate(row)` and SrcImport's `[f(a, b, …) for a, b, … in rows]` take this path too;
+                # SrcPvl's own reading, below, serves several generators)
                 it, ity = self.expr(g.iter, env2, B)
                 comps = split_prod(elem_ty(ity)) if is_list(ity) else []
                 if len(comps) != len(g.target.elts):
                     raise Untranslatable(f'comprehension target over {ity}')
-                pv = self.fresh('kv')
+                pv = self.fresh(self.spec.tuple_binder)      # 'kv'; SrcPvl's fork wrote 'p', SrcImport's 'row'
                 sub = dict(env2.get('__subst__', {}))
                 for i_, (x_, cty_) in enumerate(zip(g.target.elts, comps)):
                     env2[x_.id] = {'String': 'Str'}.get(cty_, cty_)
@@ -1375,14 +1544,30 @@ class FunTr:
                 pty = ' × '.join(paren(lean_ty(c_)) if ' × ' in lean_ty(c_) else lean_ty(c_) for c_ in comps)
                 iters.append((pv + ' : ' + pty, it, conds, pv))
                 continue
-            if not isinstance(g.target, ast.Name) or g.is_async:
+            pair = isinstance(g.target, ast.Tuple) and len(g.target.elts) == 2 and all(isinstance(x_, ast.Name) for x_ in g.target.elts) \
+                and g.target.elts[0].id != g.target.elts[1].id
+            if not (isinstance(g.target, ast.Name) or pair) or g.is_async:
                 raise Untranslatable('comprehension target')
-            if g.target.id in env2.get('__subst__', {}):
+            if not pair and g.target.id in env2.get('__subst__', {}):
                 raise Untranslatable(f'comprehension target `{g.target.id}` shadows a component of an enclosing tuple target')
             # the first iterable is evaluated in the enclosing scope and may raise; the others are per element
             it, ity = self.expr(g.iter, env2, B if g is gens[0] else None)
+            if not is_list(ity) and self.resolve(ity) in self.spec.iters:
+                it, ity = self.spec.iters[self.resolve(ity)][0].format(it), self.spec.iters[self.resolve(ity)][1]      # SrcImport
             if not is_list(ity):
                 raise Untranslatable(f'iteration over {ity}')
+            if pair:
+                # `for a, b in pairs` (SrcPvl: `for idxc, new_val in enumerate(row)`, `enumerate` bound in `spec.builtins`): one
+                # binder for the pair, the two names read its components
+                comps = split_prod(elem_ty(ity))
+                if len(comps) != 2 or g.ifs:
+                    raise Untranslatable(f'comprehension target: a pair over {ity}')
+                pv = self.fresh('p')
+                for x_, c_, proj in zip(g.target.elts, comps, ('.1', '.2')):
+                    env2[x_.id] = {'String': 'Str'}.get(c_, c_)
+                    env2['__subst__'] = {**env2.get('__subst__', {}), x_.id: f'{pv}{proj}'}
+                iters.append((pv + ' : ' + lean_ty(elem_ty(ity)), it, [], pv))
+                continue
             env2[g.target.id] = elem_ty(ity)
             conds = []
             for c in g.ifs:
@@ -1618,17 +1803,75 @@ class FunTr:
             return v.value.id
         return None
 
+    def nested_store(self, s, rest, env, k):
+        """`x.a.b = v` (SrcPvl: `final_chord.tonality.octave = 0`): a store into the sub-object `x.a`.  Admitted only where that
+        sub-object cannot be reached through another name: `x` was bound by `x = y.copy()` in a statement of the function's own
+        body, the spec declares that a copy of this type holds an `a` object of its own (`spec.owned_attrs`), and between the
+        copy and this statement (both at the top level of the function, outside loops) `x` is only mentioned as the receiver of
+        stores `x.c = e` to other attributes."""
+        tgt = s.targets[0]
+        x, a, b = tgt.value.value.id, tgt.value.attr, tgt.attr
+        xty = env[x]
+        if (xty, a) not in self.spec.owned_attrs or (xty, a) not in self.spec.fields or xty not in self.spec.value_types:
+            raise Untranslatable(f'store to {xty}.{a}.{b} at line {s.lineno}')
+        fa, aty = self.spec.fields[(xty, a)]
+        if (aty, b) not in self.spec.fields:
+            raise Untranslatable(f'store to {xty}.{a}.{b} at line {s.lineno}')
+        fb, bty = self.spec.fields[(aty, b)]
+        body = getattr(self, 'fun_body', [])
+        here = [i_ for i_, st_ in enumerate(body) if st_ is s]
+        if self.in_loop or not here or ident(x) not in self.fresh_vars(env):
+            raise Untranslatable(f'store through `{x}.{a}`, which may alias an operand, at line {s.lineno}')
+        binds = [j_ for j_ in range(here[0]) if isinstance(body[j_], ast.Assign) and len(body[j_].targets) == 1
+                 and isinstance(body[j_].targets[0], ast.Name) and body[j_].targets[0].id == x]
+        v0 = body[binds[-1]].value if binds else None
+        if not (isinstance(v0, ast.Call) and isinstance(v0.func, ast.Attribute) and v0.func.attr == 'copy' and not v0.args
+                and not v0.keywords and not any(isinstance(n_, ast.Name) and n_.id == x for n_ in ast.walk(v0))):
+            raise Untranslatable(f'`{x}` is not bound by a `.copy()` before the store to `{x}.{a}.{b}` at line {s.lineno}')
+        for st_ in body[binds[-1] + 1:here[0]]:
+            mentions = [n_ for n_ in ast.walk(st_) if isinstance(n_, ast.Name) and n_.id == x]
+            if mentions and not (isinstance(st_, ast.Assign) and len(st_.targets) == 1 and isinstance(st_.targets[0], ast.Attribute)
+                                 and st_.targets[0].value is mentions[0] and len(mentions) == 1 and st_.targets[0].attr != a):
+                raise Untranslatable(f'`{x}` is used between its copy and the store to `{x}.{a}.{b}` at line {s.lineno}')
+        B = []
+        t, ty = self.expr(s.value, env, B)
+        t = self.coerce(t, ty, bty, f'store to {xty}.{a}.{b}')
+        upd = '{ ' + ident(x) + f' with {fa} := {{ {ident(x)}.{fa} with {fb} := {t} }} }}'
+        return self.wrap(B, ('let', ident(x), lean_ty(xty), upd, self.block(rest, env, k)))
+
     def local_function(self, s):
         """a `def` inside the function, possibly recursive.  Emitted as a Lean definition by structural recursion on `rec_fuel`;
         running out of fuel is Python's RecursionError.  Without the keys below it is closed (only its own parameters and spec
         globals).  SrcEuclid: `captures=[(name, type)]` are variables of the enclosing function it reads, `mutates=[(name, type)]`
         lists of the enclosing function it appends to (and only appends to; it returns nothing): both become leading parameters,
-        the mutated lists are the result; such a function is called as a statement (`FunTr.closure_call`)."""
+        the mutated lists are the result; such a function is called as a statement (`FunTr.closure_call`).  SrcPvl:
+        `closure=[(name, type)]` are parameters of the enclosing function it reads (leading parameters; it may return a value and
+        is called inside expressions; recorded as `closure_params` in `spec.funs`).  SrcImport: `plain=True`, a closed function
+        that does not call itself, emitted without a depth bound."""
         nd = self.nested[s.name]
         caps, muts = list(nd.get('captures', ())), list(nd.get('mutates', ()))
         all_params = caps + muts + list(nd['params'])
         if [a.arg for a in s.args.args] != [p[0] for p in nd['params']] or s.args.vararg or s.args.kwarg or s.args.defaults:
             raise Untranslatable(f'local function {s.name}: parameters')
+        if nd.get('plain'):
+            # SrcImport: a local function that does not call itself (it is registered only after its body is translated, so a
+            # recursive call is an unknown function) and closes over nothing: an ordinary definition, no depth bound
+            if caps or muts or nd.get('closure'):
+                raise Untranslatable(f'local function {s.name}: `plain` with captured variables')
+            sub = FunTr(self.spec, nd['lean'], nd['params'], nd['ret'])
+            sub.copy_template, sub.fold_literals = self.copy_template, self.fold_literals
+            sub.typed_ops, sub.join_ifs = self.typed_ops, self.join_ifs
+            sub.fun_body = list(s.body)
+            tree = sub.block(list(s.body), {p_: t_ for p_, t_ in nd['params']})
+            sig = ' '.join(f'({ident(p_)} : {lean_ty(t_)})' for p_, t_ in nd['params'])
+            rt = lean_ty(nd['ret'])
+            pure_ = is_pure(tree)
+            head = f'def {nd["lean"]} {sig} : ' + (rt if pure_ else f'Res {paren(rt)}') + ' :=' + ('' if pure_ else ' do')
+            lines = [f'/-- local function `{s.name}` of `{self.name}` (no closure, no recursion) -/', head] + render(tree, 2, not pure_)
+            self.spec.funs[s.name] = dict(lean=nd['lean'], params=nd['params'], ret=nd['ret'], pure=pure_, local=True)
+            self.nested_defs.append(('\n'.join(lines), sub))
+            self.assumed += sub.assumed
+            return
         if any(p[0] == 'rec_fuel' for p in all_params):
             raise Untranslatable('a parameter named rec_fuel')
         ret = nd['ret']
@@ -1647,6 +1890,19 @@ class FunTr:
                     raise Untranslatable(f'local function {s.name}: statement at line {node.lineno}')
             if muts:
                 ret = ' × '.join(paren(lean_ty(t_)) if ' × ' in lean_ty(t_) else lean_ty(t_) for _, t_ in muts)
+        # entry key `closure` (SrcPvl): parameters of the enclosing function the local function reads (`self`).  They become
+        # leading parameters of the lifted definition and every call passes the enclosing function's value, which is what the
+        # closure sees as long as neither function ever re-binds the name (checked)
+        closure = [tuple(c_) for c_ in nd.get('closure', ())]
+        for c_, t_ in closure:
+            if (c_, t_) not in [tuple(p_) for p_ in self.params] or c_ in [p_[0] for p_ in nd['params']] or c_ == 'rec_fuel' \
+                    or c_ in self.assigned_names(getattr(self, 'fun_body', [s])) or c_ in self.consts \
+                    or any(isinstance(n_, ast.Name) and n_.id == c_ and not isinstance(n_.ctx, ast.Load)
+                           for st_ in getattr(self, 'fun_body', [s]) for n_ in ast.walk(st_)):
+                raise Untranslatable(f'local function {s.name}: closure variable {c_}')
+        if closure and (caps or muts):
+            raise Untranslatable(f'local function {s.name}: both `closure` and `captures` / `mutates`')
+        all_params = closure + all_params
         sub = FunTr(self.spec, nd['lean'], all_params, ret)
         if self.fuel_name not in (None, 'rec_fuel'):
             raise Untranslatable(f'local function {s.name} inside a function whose depth bound is called {self.fuel_name}')
@@ -1656,7 +1912,9 @@ class FunTr:
         sub.is_local = True
         self.has_fuel = True
         self.spec.funs[s.name] = dict(lean=nd['lean'], params=all_params, ret=ret, pure=False, fuel=True, local=True,
-                                      **({'closure': (caps, muts)} if caps or muts else {}))
+                                      **({'closure': (caps, muts)} if caps or muts else {}),
+                                      **({'closure_params': closure} if closure else {}))
+        sub.fun_body = list(s.body)
         env0 = {p_: t_ for p_, t_ in all_params}
         k0 = None
         if muts:
@@ -1818,6 +2076,223 @@ class FunTr:
                         add(n_)                                # a local function that appends to lists of this function (SrcEuclid)
         return out
 
+    def rebound_names(self, stmts):
+        """names bound as a whole (`x = e`, `x op= e`, tuple targets) anywhere in a statement list — unlike `assigned_names`, a store
+        through the name (`x.attr = e`, `x[i] = e`, `x.append(e)`) does not count"""
+        out = []
+        for st in stmts:
+            for node in ast.walk(st):
+                tgts = node.targets if isinstance(node, ast.Assign) else ([node.target] if isinstance(node, (ast.AugAssign, ast.For)) else [])
+                for t in tgts:
+                    for x in ast.walk(t):
+                        if isinstance(x, ast.Name) and isinstance(x.ctx, ast.Store) and x.id not in out:
+                            out.append(x.id)
+        return out
+
+    def elem_loop(self, s):
+        """`for i, x in enumerate(p)` over a parameter `p` declared `owned_items` (the function may store into the items of the
+        list through the loop variable) -> (x, p)"""
+        it = s.iter
+        if isinstance(it, ast.Call) and isinstance(it.func, ast.Name) and it.func.id == 'enumerate' and len(it.args) == 1 \
+                and not it.keywords and isinstance(it.args[0], ast.Name) and it.args[0].id in getattr(self, 'owned_items', ()) \
+                and isinstance(s.target, ast.Tuple) and len(s.target.elts) == 2 and isinstance(s.target.elts[1], ast.Name):
+            return s.target.elts[1].id, it.args[0].id
+        return None
+
+    def check_elem_store(self, x, p, attr, stmt):
+        """`x.attr = e` where `x` is the loop variable running over the items of the parameter `p` (entry key `owned_items`).
+        The image rebinds `x` to an updated record for the rest of the iteration; the list itself is not rebuilt.  That is what
+        Python does for every observation the function can make, provided that
+          * `attr` is read nowhere in the function except as `x.attr` (so a mutated item is never looked at through the list,
+            through another name, or in a later iteration that did not store first: an item reached again would have to be read
+            as `x.attr`, and the items are distinct objects — assumption printed in the generated file),
+          * `p` itself is only iterated (`enumerate(p)`), measured (`len(p)`) and indexed, an item taken by index is only read
+            through its attributes (`p[i].a`, or `y = p[i]` with `y` used as `y.a` only), so no item escapes into the result."""
+        body = getattr(self, 'fun_body', [])
+        parents = {}
+        for st_ in body:
+            for node in ast.walk(st_):
+                for ch in ast.iter_child_nodes(node):
+                    parents[id(ch)] = node
+        for st_ in body:
+            for node in ast.walk(st_):
+                if isinstance(node, ast.Attribute) and node.attr == attr and not (isinstance(node.value, ast.Name) and node.value.id == x):
+                    raise Untranslatable(f'`.{attr}` (stored through `{x}`) is also read through `{ast.unparse(node.value)}`, line {node.lineno}')
+                if isinstance(node, ast.Name) and node.id == p:
+                    par = parents.get(id(node))
+                    if isinstance(par, ast.Call) and isinstance(par.func, ast.Name) and par.func.id in ('enumerate', 'len') and par.args == [node]:
+                        continue
+                    if isinstance(par, ast.Subscript) and par.value is node and not isinstance(par.slice, ast.Slice):
+                        gp = parents.get(id(par))
+                        if isinstance(gp, ast.Attribute) and isinstance(gp.ctx, ast.Load):
+                            continue
+                        if isinstance(gp, ast.Assign) and len(gp.targets) == 1 and isinstance(gp.targets[0], ast.Name) and gp.value is par:
+                            y = gp.targets[0].id
+                            uses = [n_ for s2 in body for n_ in ast.walk(s2) if isinstance(n_, ast.Name) and n_.id == y and n_ is not gp.targets[0]]
+                            if all(isinstance(parents.get(id(u)), ast.Attribute) and isinstance(parents[id(u)].ctx, ast.Load) for u in uses) \
+                                    and sum(1 for s2 in body for n_ in ast.walk(s2) if isinstance(n_, ast.Name) and n_.id == y
+                                            and isinstance(n_.ctx, ast.Store)) == 1:
+                                continue
+                    raise Untranslatable(f'`{p}` (its items are stored into) is used other than by enumerate / len / item attribute, line {node.lineno}')
+        self.item_stores = getattr(self, 'item_stores', set()) | {(p, attr)}
+        note = (f'the items of `{p}` are distinct objects, and the caller does not read their `{attr}` after the call (the function '
+                f'stores into it): translated call sites are checked, other callers are assumed to comply')
+        if note not in self.assumed:
+            self.assumed.append(note)
+
+    def item_attr_target(self, s, env):
+        """`xs[i].attr` as the target of `=` / `op=`, `xs` a local list of records with a storable field `attr` -> (target, xs)"""
+        tgt = s.targets[0] if isinstance(s, ast.Assign) and len(s.targets) == 1 else getattr(s, 'target', None)
+        if isinstance(tgt, ast.Attribute) and isinstance(tgt.value, ast.Subscript) and isinstance(tgt.value.value, ast.Name) \
+                and not isinstance(tgt.value.slice, ast.Slice) and tgt.value.value.id in env:
+            xty = self.resolve(env[tgt.value.value.id])
+            if (xty.startswith('List ') or xty == 'Melody') and (elem_ty(xty), tgt.attr) in self.spec.fields:
+                return tgt, tgt.value.value.id
+        return None
+
+    def check_item_store(self, xs, stmt, env):
+        """A store through `xs[i]` changes an object that may also be known under the name it was appended with (`xs.append(y)`);
+        the image changes the list item only.  Both agree as long as no such `y` is read between the store and its next
+        re-binding.  Checked syntactically, for every name `y` appended to `xs` anywhere in the function:
+          * `y` is a parameter declared `owned` (the caller gives the object up) or every binding of `y` is a new object;
+          * every read of `y` is safe: going backwards from the read, through the enclosing blocks, a binding of `y` is met
+            before any statement that contains a store through `xs[…]`, or the beginning of the function is reached (`y` a
+            parameter, not yet touched); leaving a loop body whose body contains such a store is not safe (a later iteration);
+          * up to the last top-level statement that can store, `xs` itself is only appended to, popped, measured, iterated in a
+            comprehension, indexed for an attribute, or passed to a constructor the spec binds (no second name for the list or
+            for an item)."""
+        key = (xs,)
+        if key in getattr(self, '_item_store_ok', set()):
+            return
+        body = getattr(self, 'fun_body', [])
+
+        def has_store(st):
+            for n_ in ast.walk(st):
+                if isinstance(n_, (ast.Assign, ast.AugAssign)):
+                    t_ = n_.targets[0] if isinstance(n_, ast.Assign) and len(n_.targets) == 1 else getattr(n_, 'target', None)
+                    if isinstance(t_, ast.Attribute) and isinstance(t_.value, ast.Subscript) and isinstance(t_.value.value, ast.Name) \
+                            and t_.value.value.id == xs:
+                        return True
+            return False
+
+        def binds(st, y):
+            return isinstance(st, ast.Assign) and len(st.targets) == 1 and isinstance(st.targets[0], ast.Name) and st.targets[0].id == y
+
+        appended = []
+        parents = {}
+        for st_ in body:
+            for node in ast.walk(st_):
+                for ch in ast.iter_child_nodes(node):
+                    parents[id(ch)] = node
+        last = max([i_ for i_, st_ in enumerate(body) if has_store(st_)], default=-1)
+        for st_ in body[:last + 1]:           # after the last statement that can store, a second name is harmless
+            for node in ast.walk(st_):
+                if isinstance(node, ast.Name) and node.id == xs and isinstance(node.ctx, ast.Load):
+                    par = parents.get(id(node))
+                    gp = parents.get(id(par))
+                    if isinstance(par, ast.Attribute) and par.attr in ('append', 'pop') and isinstance(gp, ast.Call) and gp.func is par:
+                        if par.attr == 'append' and len(gp.args) == 1:
+                            a = gp.args[0]
+                            if isinstance(a, ast.Name):
+                                appended.append(a.id)
+                            elif not self.is_fresh_value(a):
+                                raise Untranslatable(f'`{xs}.append({ast.unparse(a)})`: the item may be known elsewhere, line {node.lineno}')
+                        continue
+                    if isinstance(par, ast.Subscript) and par.value is node and isinstance(gp, ast.Attribute):
+                        continue                       # `xs[i].attr` (read or store target)
+                    if isinstance(par, ast.comprehension) and par.iter is node:
+                        continue                       # `[m for m in xs …]`: a new list
+                    if isinstance(par, ast.Call) and isinstance(par.func, ast.Name) and (par.func.id == 'len' or par.func.id in self.spec.ctors) \
+                            and node in par.args:
+                        continue
+                    raise Untranslatable(f'`{xs}` (its items are stored into) is used in a way that may give the list or an item a second '
+                                         f'name, line {node.lineno}')
+        for y in dict.fromkeys(appended):
+            for st_ in body:
+                for node in ast.walk(st_):
+                    if binds(node, y) and not (self.is_fresh_value(node.value)):
+                        raise Untranslatable(f'`{y}` (appended to `{xs}`, whose items are stored into) is bound to an object that may be '
+                                             f'known elsewhere, line {node.lineno}')
+            if y in dict(self.params) and y not in getattr(self, 'owned', ()):
+                raise Untranslatable(f'parameter `{y}` is appended to `{xs}`, whose items are stored into: declare it `owned`')
+            reads = [n_ for st_ in body for n_ in ast.walk(st_) if isinstance(n_, ast.Name) and n_.id == y and isinstance(n_.ctx, ast.Load)]
+            for r_ in reads:
+                node = r_
+                safe = None
+                while safe is None:
+                    # climb to the statement containing `node` and the block (statement list) it sits in
+                    st_ = node
+                    while id(st_) in parents and not isinstance(st_, ast.stmt):
+                        st_ = parents[id(st_)]
+                    par = parents.get(id(st_))
+                    blocks = [body] if par is None else [getattr(par, f_, None) for f_ in ('body', 'orelse', 'finalbody')]
+                    blk = next((b_ for b_ in blocks if isinstance(b_, list) and any(x_ is st_ for x_ in b_)), None)
+                    if blk is None:
+                        safe = False
+                        break
+                    j = next(i_ for i_, x_ in enumerate(blk) if x_ is st_)
+                    for prev in reversed(blk[:j]):
+                        if binds(prev, y):
+                            safe = True
+                            break
+                        if has_store(prev):
+                            safe = False
+                            break
+                    if safe is not None:
+                        break
+                    if par is None:
+                        safe = True                    # the beginning of the function
+                    elif isinstance(par, (ast.For, ast.While)) and has_store(par):
+                        safe = False
+                    elif isinstance(par, ast.FunctionDef):
+                        safe = False
+                    else:
+                        node = par
+                if not safe:
+                    raise Untranslatable(f'`{y}` (appended to `{xs}`) may be read at line {r_.lineno} after a store through `{xs}[…]`')
+        self._item_store_ok = getattr(self, '_item_store_ok', set()) | {key}
+
+    def pop_call(self, v, env):
+        """`d.pop(k)` / `d.pop(k, None)` on a local of a declared dict type whose spec entry has a `pop` template"""
+        if isinstance(v, ast.Call) and isinstance(v.func, ast.Attribute) and v.func.attr == 'pop' and isinstance(v.func.value, ast.Name) \
+                and not v.keywords and len(v.args) in (1, 2) and v.func.value.id in env:
+            dty = self.resolve(env[v.func.value.id])
+            if dty in getattr(self, 'dictvars', ()) and self.tyvars.get(dty) is None:
+                cands = [d_ for d_, D_ in self.spec.dict_types.items() if 'pop' in D_]       # a `{}` nothing was stored into yet
+                if len(cands) == 1:
+                    self.tyvars[dty] = dty = cands[0]
+            if dty in self.spec.dict_types and 'pop' in self.spec.dict_types[dty]:
+                return len(v.args) == 1 or (isinstance(v.args[1], ast.Constant) and v.args[1].value is None)
+        return False
+
+    def hoist_pop(self, s, env):
+        """`targets = f(a1, …, d.pop(k), …)`: the pop is an argument of the call that is the whole right-hand side, every argument
+        before it is an atom (a name other than `d`, a constant, `[]`) and so is `k`: evaluating the pop first changes nothing.
+        -> [`h' = d.pop(k)`, `targets = f(a1, …, h', …)`] with a hidden name `h'`, else None"""
+        v = s.value
+        if not (isinstance(v, ast.Call) and isinstance(v.func, ast.Name)):
+            return None
+        for i, a in enumerate(v.args):
+            if self.pop_call(a, env):
+                d = a.func.value.id
+
+                def atom(x):
+                    return isinstance(x, ast.Constant) or (isinstance(x, ast.Name) and x.id != d) or (isinstance(x, ast.List) and not x.elts)
+                if not all(atom(x) for x in v.args[:i]) or not atom(a.args[0]):
+                    raise Untranslatable(f'`{d}.pop(…)` as an argument after a computed argument, line {s.lineno}')
+                if any(self.pop_call(x, env) for x in list(v.args[i + 1:]) + [kw.value for kw in v.keywords]):
+                    raise Untranslatable(f'several pops in one call, line {s.lineno}')
+                h = self.fresh('popped') + "'"
+                first = ast.Assign(targets=[ast.Name(id=h, ctx=ast.Store())], value=a)
+                call = ast.Call(func=v.func, args=list(v.args[:i]) + [ast.Name(id=h, ctx=ast.Load())] + list(v.args[i + 1:]),
+                                keywords=list(v.keywords))
+                second = ast.Assign(targets=s.targets, value=call)
+                for n_ in (first, call, second):
+                    ast.copy_location(n_, s)
+                    ast.fix_missing_locations(n_)
+                return [first, second]
+        return None
+
     def none_test(self, test, env):
         """`x is None` / `x is not None` on a local of Optional type -> (name, True if the test is `is None`)"""
         if isinstance(test, ast.Compare) and len(test.ops) == 1 and isinstance(test.ops[0], (ast.Is, ast.IsNot)) \
@@ -1832,6 +2307,7 @@ class FunTr:
         t = s.target
         if not (isinstance(t, ast.Tuple) and len(t.elts) == 2 and isinstance(t.elts[0], ast.Name) and isinstance(s.iter, ast.Call)
                 and isinstance(s.iter.func, ast.Name) and s.iter.func.id == 'enumerate' and 'enumerate' not in env
+                and 'enumerate' not in self.spec.builtins       # a group that binds `enumerate` itself (SrcImport) reads the loop over its binding
                 and len(s.iter.args) == 1 and not s.iter.keywords):
             return None
         second = t.elts[1]
@@ -1979,6 +2455,56 @@ class FunTr:
                 raise Untranslatable(f'item store with index {ity} at line {s.lineno}')
             t = self.coerce(t, ty, elem_ty(env[x]), f'item store into {env[x]}')
             return self.wrap(B, ('bind', ident(x), f'Py.setItem {ident(x)} {i} {paren(t)}', self.block(rest, env, k)))
+        if isinstance(s, ast.Assign) and len(s.targets) == 1 and self.hoist_pop(s, env) is not None:
+            return self.block(self.hoist_pop(s, env) + rest, env, k)
+        if isinstance(s, ast.Assign) and len(s.targets) == 1 and isinstance(s.targets[0], ast.Name) and self.pop_call(s.value, env):
+            # SrcImport: `x = d.pop(k)` (KeyError when absent) / `x = d.pop(k, None)` on a dict type the spec declares with a `pop`
+            # template: the value (Optional with a default) and the dict without the key.  The popped value counts as an object
+            # no other name refers to: the dict held the only reference (assumption printed in the generated file).
+            x, d = s.targets[0].id, s.value.func.value.id
+            dty = self.resolve(env[d])
+            D = self.spec.dict_types[dty]
+            if ident(d) not in self.fresh_vars(env) and d not in getattr(self, 'owned', ()):
+                raise Untranslatable(f'pop on `{d}`, which may alias an operand, at line {s.lineno}')
+            B = []
+            kt, kty = self.expr(s.value.args[0], env, B)
+            if lean_ty(kty) != lean_ty(D['key']):
+                raise Untranslatable(f'key of {dty}: {kty}')
+            pr = self.fresh('pr')
+            B.append((pr, ('pure', D['pop'].format(ident(d), kt))))
+            vty = f'Option {paren(D["val"])}'
+            val = f'{pr}.1'
+            if len(s.value.args) == 1:
+                val, vty = self.bind(B, f'(match {pr}.1 with | some v => pure v | none => throw Err.key)', 'Res ' + paren(D['val']))
+            note = f'the values of the dict `{d}` are referenced by the dict only (a popped value is a fresh object)'
+            if note not in self.assumed:
+                self.assumed.append(note)
+            fr = frozenset(set(self.fresh_vars(env)) | {ident(x)})
+            env2 = {**self.drop_const(env, [x]), x: vty, '__fresh__': fr}
+            return self.wrap(B, ('let', ident(x), lean_ty(vty), val,
+                                 ('let', ident(d), lean_ty(dty), f'{pr}.2', self.block(rest, env2, k))))
+        if isinstance(s, ast.AugAssign) and isinstance(s.target, ast.Subscript) and isinstance(s.target.value, ast.Name) \
+                and s.target.value.id in env and self.dict_reading(env[s.target.value.id]) == 'declared' \
+                and 'get' in self.spec.dict_types.get(self.resolve(env[s.target.value.id]), {}):
+            # SrcImport: `d[k] op= v` on a declared dict type: `d[k]` is read first (KeyError), then `v`, then the store
+            x = s.target.value.id
+            dty = self.resolve(env[x])
+            D = self.spec.dict_types[dty]
+            if ident(x) not in self.fresh_vars(env) and x not in getattr(self, 'owned', ()):
+                raise Untranslatable(f'store through `{x}`, which may alias an operand, at line {s.lineno}')
+            B = []
+            kt, kty = self.expr(s.target.slice, env, B)
+            if lean_ty(kty) != lean_ty(D['key']) or not isinstance(s.target.slice, (ast.Name, ast.Constant)):
+                raise Untranslatable(f'key of {dty} at line {s.lineno}')
+            cur, _ = self.bind(B, D['get'].format(ident(x), kt), 'Res ' + paren(D['val']))
+            h = self.fresh('cur') + "'"
+            B.append((h, ('pure', cur)))
+            v = ast.BinOp(left=ast.Name(id=h, ctx=ast.Load()), op=s.op, right=s.value)
+            ast.copy_location(v, s)
+            ast.fix_missing_locations(v)
+            t, ty = self.expr(v, {**env, h: D['val']}, B)
+            t = self.coerce(t, ty, D['val'], f'store to {dty}[…]')
+            return self.wrap(B, ('let', ident(x), lean_ty(dty), D['set'].format(ident(x), kt, t), self.block(rest, env, k)))
         if isinstance(s, ast.Assign) and len(s.targets) == 1 and isinstance(s.targets[0], ast.Name):
             B = []
             self.cur_target, self.cur_value = s.targets[0].id, s.value
@@ -2014,6 +2540,8 @@ class FunTr:
             t, ty = self.expr(s.value, env, B)
             comps = split_prod(ty)
             names = [x.id for x in s.targets[0].elts]
+            if len(comps) == 1 and len(names) > 1 and strip_outer(ty) != ty:
+                comps = [strip_outer(c_) for c_ in split_prod(strip_outer(ty))]      # SrcImport: `chord, bar = cb`, `cb : (Chord × (Rat × Rat))`
             if len(comps) != len(names):
                 raise Untranslatable(f'unpacking {ty} into {len(names)} names at line {s.lineno}')
             pr = self.fresh('pr')
@@ -2026,6 +2554,8 @@ class FunTr:
                     continue
                 fr.add(ident(nme))       # components of a freshly built tuple
             env2['__fresh__'] = frozenset(fr)
+            if getattr(s, '_py2lean_elem', None):
+                env2['__elems__'] = {**env.get('__elems__', {}), s._py2lean_elem[0]: s._py2lean_elem[1]}
             node = self.block(rest, env2, k)
             for idx in reversed(range(len(names))):
                 node = ('let', ident(names[idx]), lean_ty(comps[idx]), f'{pr}{tuple_proj(len(names), idx)}', node)
@@ -2104,14 +2634,15 @@ class FunTr:
         if isinstance(s, ast.Expr) and isinstance(s.value, ast.Call) and isinstance(s.value.func, ast.Attribute) \
                 and s.value.func.attr in ('insert', 'pop') and isinstance(s.value.func.value, ast.Name) \
                 and s.value.func.value.id in env and self.resolve(env[s.value.func.value.id]).startswith('List ') \
-                and not s.value.keywords and len(s.value.args) == (2 if s.value.func.attr == 'insert' else 1):
+                and not s.value.keywords and (len(s.value.args) == (2 if s.value.func.attr == 'insert' else 1)
+                                              or (s.value.func.attr == 'pop' and not s.value.args)):
             # `x.insert(i, v)` (the index is clamped) / `x.pop(i)` as a statement (IndexError out of range)
             x = s.value.func.value.id
             xty = self.resolve(env[x])
             if ident(x) not in self.fresh_vars(env):
                 raise Untranslatable(f'{s.value.func.attr} on `{x}`, which may alias an operand, at line {s.lineno}')
             B = []
-            i, ity = self.expr(s.value.args[0], env, B)
+            i, ity = self.expr(s.value.args[0], env, B) if s.value.args else (ilit(-1), 'Int')      # `x.pop()` = `x.pop(-1)` (SrcImport)
             if ity != 'Int':
                 raise Untranslatable(f'{s.value.func.attr} at an index of type {ity}')
             if s.value.func.attr == 'insert':
@@ -2121,6 +2652,38 @@ class FunTr:
             r = self.fresh()
             B.append((r, f'PyL.popAt {ident(x)} {i}'))
             return self.wrap(B, ('let', ident(x), lean_ty(xty), r, self.block(rest, env, k)))
+        if isinstance(s, ast.Assign) and len(s.targets) == 1 and isinstance(s.targets[0], ast.Attribute) \
+                and isinstance(s.targets[0].value, ast.Attribute) and isinstance(s.targets[0].value.value, ast.Name) \
+                and s.targets[0].value.value.id in env and self.spec.owned_attrs:
+            return self.nested_store(s, rest, env, k)
+        if isinstance(s, (ast.Assign, ast.AugAssign)) and self.item_attr_target(s, env) is not None:
+            # SrcImport: `xs[i].attr = e` / `xs[i].attr op= e` on a list no other name refers to.  Python evaluates `xs[i]` (IndexError),
+            # for `op=` reads the attribute, evaluates `e`, then stores into the object; the image writes the updated record back at
+            # the same index.  The items of the list may be known under other names (`xs.append(y)`): see `check_item_store`.
+            tgt, x = self.item_attr_target(s, env)
+            xty = self.resolve(env[x])
+            if ident(x) not in self.fresh_vars(env):
+                raise Untranslatable(f'store through `{x}[…]`, which may alias an operand, at line {s.lineno}')
+            self.check_item_store(x, s, env)
+            field, fty = self.spec.fields[(elem_ty(xty), tgt.attr)]
+            B = []
+            if isinstance(s, ast.Assign):
+                t, ty = self.expr(s.value, env, B)            # `=`: the value first, then the target's object
+            i, ity = self.expr(tgt.value.slice, env, B)
+            if ity != 'Int':
+                raise Untranslatable(f'item store with index {ity} at line {s.lineno}')
+            o, _ = self.bind(B, f'pyIndex {ident(x)} {i}', 'Res ' + paren(lean_ty(elem_ty(xty))))
+            if isinstance(s, ast.AugAssign):
+                cur = self.fresh('cur') + "'"               # hidden name (not a Python identifier): the attribute as read
+                B.append((cur, ('pure', f'{o}.{field}')))
+                v = ast.BinOp(left=ast.Name(id=cur, ctx=ast.Load()), op=s.op, right=s.value)
+                ast.copy_location(v, s)
+                ast.fix_missing_locations(v)
+                t, ty = self.expr(v, {**env, cur: fty}, B)
+            t = self.coerce(t, ty, fty, f'store to {x}[…].{tgt.attr}')
+            r = self.fresh()
+            B.append((r, f'PyL.setItem {ident(x)} {i} {{ {o} with {field} := {t} }}'))
+            return self.wrap(B, ('let', ident(x), lean_ty(xty), r, self.block(rest, env, k)))
         if isinstance(s, (ast.Assign, ast.AugAssign)):
             tgt = s.targets[0] if isinstance(s, ast.Assign) and len(s.targets) == 1 else getattr(s, 'target', None)
             if isinstance(tgt, ast.Attribute) and isinstance(tgt.value, ast.Name) and tgt.value.id in env:
@@ -2128,7 +2691,9 @@ class FunTr:
                 xty = env[x]
                 if (xty, tgt.attr) not in self.spec.fields and (xty, tgt.attr) not in self.spec.store_templates:
                     raise Untranslatable(f'store to {xty}.{tgt.attr} at line {s.lineno}')
-                if ident(x) not in self.fresh_vars(env):
+                if x in env.get('__elems__', {}) and ident(x) not in self.fresh_vars(env):
+                    self.check_elem_store(x, env['__elems__'][x], tgt.attr, s)      # SrcImport: `note.end = …` on an item of an owned list
+                elif ident(x) not in self.fresh_vars(env):
                     raise Untranslatable(f'store through `{x}`, which may alias an operand, at line {s.lineno}')
                 if (xty, tgt.attr) in self.spec.store_templates and isinstance(s, ast.Assign):
                     tmpl, vty, rty = self.spec.store_templates[(xty, tgt.attr)]
@@ -2328,12 +2893,33 @@ class FunTr:
         if isinstance(s, ast.For) and not s.orelse and isinstance(s.target, ast.Tuple) and len(s.target.elts) == 2 \
                 and all(isinstance(x_, ast.Name) for x_ in s.target.elts) and isinstance(s.iter, ast.Call) \
                 and isinstance(s.iter.func, ast.Name) and s.iter.func.id == 'enumerate' and 'enumerate' not in env \
+                and 'enumerate' not in self.spec.builtins \
                 and len(s.iter.args) == 1 and not s.iter.keywords:
             idx = s.target.elts[0].id
             if any(isinstance(x_, ast.Name) and x_.id == idx for st_ in list(s.body) + rest for x_ in ast.walk(st_)):
                 raise Untranslatable(f'enumerate index `{idx}` is used, at line {s.lineno}')
             s2 = ast.For(target=s.target.elts[1], iter=s.iter.args[0], body=s.body, orelse=[])     # the index is never read
             ast.copy_location(s2, s)
+            return self.block([s2] + rest, env, k)
+        if isinstance(s, ast.For) and not s.orelse and isinstance(s.target, ast.Tuple) \
+                and any(isinstance(x, ast.Tuple) for x in s.target.elts) \
+                and all(isinstance(x, ast.Name) or (isinstance(x, ast.Tuple) and all(isinstance(y, ast.Name) for y in x.elts))
+                        for x in s.target.elts):
+            # SrcImport: `for i, (a, b) in e:` = `for i, ab' in e: a, b = ab'` (hidden names cannot clash)
+            elts, unpacks = [], []
+            for x in s.target.elts:
+                if isinstance(x, ast.Name):
+                    elts.append(x)
+                    continue
+                h = self.fresh('nt') + "'"
+                elts.append(ast.Name(id=h, ctx=ast.Store()))
+                u = ast.Assign(targets=[x], value=ast.Name(id=h, ctx=ast.Load()))
+                u._py2lean_alias = True
+                unpacks.append(u)
+            s2 = ast.For(target=ast.Tuple(elts=elts, ctx=ast.Store()), iter=s.iter, body=unpacks + list(s.body), orelse=[])
+            for n_ in unpacks + [s2]:
+                ast.copy_location(n_, s)
+                ast.fix_missing_locations(n_)
             return self.block([s2] + rest, env, k)
         if isinstance(s, ast.For) and not s.orelse and isinstance(s.target, ast.Tuple) \
                 and all(isinstance(x, ast.Name) for x in s.target.elts):
@@ -2350,8 +2936,12 @@ class FunTr:
                     and not s.iter.args and isinstance(s.iter.func.value, ast.Attribute) \
                     and isinstance(s.iter.func.value.value, ast.Name):
                 items = ((s.iter.func.value.value.id, s.iter.func.value.attr), s.target.elts[0].id)
-            if any(x.id in self.assigned_names(s.body) for x in s.target.elts):
+            elem = self.elem_loop(s)           # SrcImport: (element variable, `owned_items` parameter) or None
+            if any(x.id in (self.rebound_names(s.body) if elem and x.id == elem[0] else self.assigned_names(s.body))
+                   for x in s.target.elts):
                 raise Untranslatable(f'loop target re-assigned in the body at line {s.lineno}')
+            if elem:
+                unpack._py2lean_elem = elem
             loop._py2lean_items = items
             return self.block([loop] + rest, env, k)
         if isinstance(s, ast.For) and not s.orelse and isinstance(s.target, ast.Name):
@@ -2370,6 +2960,8 @@ class FunTr:
                     # live view agree
                     continue
                 if isinstance(nd, ast.Name) and nd.id in svars and not env[nd.id] in ('Int', 'Rat', 'Bool'):
+                    if isinstance(s.iter, ast.ListComp) and self.resolve(env[nd.id]) in self.spec.dict_types:
+                        continue      # SrcImport: `for k in [v for v in d if …]`: the comprehension is a new list, built before the loop
                     raise Untranslatable(f'the loop at line {s.lineno} changes `{nd.id}`, which it iterates over')
             has_break = any(isinstance(x, ast.Break) for st_ in s.body for x in ast.walk(st_))
             env0 = self.drop_const(env, svars + [s.target.id])
@@ -2409,7 +3001,7 @@ class FunTr:
                 if not promote and not promote_opt:
                     break
                 self.n = saved_n
-                for n in set(promote):
+                for n in sorted(set(promote)):      # sorted: the order of a set of strings changes with the hash seed of the run
                     env0[n] = 'Rat'
                     pre.append(n)
                 for n, t_ in promote_opt.items():
@@ -2583,7 +3175,10 @@ def translate_function(spec, entry):
       owned=[param]                     parameters the function stores into / mutates (see `_translate_function`, `FunTr.check_owned`)
       local_spec={Spec field: update}   SrcConv: bindings merged into the spec while this function is translated, then removed
       nested={name: dict(lean, params, ret)}   SrcDurOps: local (recursive) functions, emitted with a depth bound `rec_fuel`
+                                        (further keys: `captures` / `mutates` SrcEuclid, `closure` SrcPvl, `plain` SrcImport: `FunTr.local_function`)
       recursive=True                    SrcConv: the function calls itself; the definition recurses on a depth bound `fuel`
+      owned_items=[param]               SrcImport: list parameters whose items the function stores into through a loop variable
+      list_rows=True                    SrcImport: a list display with items of several types is a row (a tuple)
       fuel=True                         the function reaches one of the two kinds of recursion: it takes the bound as first argument and
                                         passes it on (named as the first such callee names it: `rec_fuel` or `fuel`)
       join_ifs, fold, typed_ops, binop, rbinop    see `FunTr`"""
@@ -2606,6 +3201,7 @@ def translate_function(spec, entry):
     tr.join_ifs = bool(entry.get('join_ifs'))
     tr.copy_template = dict(entry.get('copy', {}))
     tr.fold_literals = bool(entry.get('fold'))
+    tr.list_rows = bool(entry.get('list_rows'))
     tr.typed_ops = bool(entry.get('typed_ops'))
     tr.nested = dict(entry.get('nested', {}))
     tr.has_fuel = bool(entry.get('fuel') or entry.get('recursive'))
@@ -2637,6 +3233,9 @@ def _translate_function(spec, entry, tr, fd, params):
             tr.assumed.append(f'the caller does not use the list `{", ".join(lists)}` after the call (the function mutates it in '
                               f'place): translated call sites are checked, other callers are assumed to pass a list of their own')
     tr.owned = set(owned)
+    tr.owned_items = set(entry.get('owned_items', []))       # SrcImport: list parameters whose items the function stores into
+    if any(p not in env or not env[p].startswith('List ') for p in tr.owned_items):
+        raise Untranslatable(f'{entry["py"]}: owned_items {sorted(tr.owned_items)}')
     tr.fun_body = list(fd.body)
     for k, (term, ty) in entry.get('fixed', {}).items():
         env[k] = ty
@@ -2742,6 +3341,8 @@ def _translate_function(spec, entry, tr, fd, params):
     info = {'lean': entry['lean'], 'params': params, 'ret': entry['ret'], 'pure': pure, 'defaults': defaults}
     if owned:
         info['owned'] = tuple(owned)
+    if getattr(tr, 'item_stores', None):
+        info['item_stores'] = tuple(sorted(tr.item_stores))     # (parameter, attribute) pairs stored through items (`FunTr.check_owned`)
     if entry.get('fixed'):
         info['fixed'] = {k_: v_[0] for k_, v_ in entry['fixed'].items()}
     if tr.has_fuel:
